@@ -1,2 +1,2 @@
-import NipyVerif.Model.C06B
-def main : IO Unit := NipyVerif.driverLoop NipyVerif.C06.runB
+import NipyVerif.Model.C06C
+def main : IO Unit := NipyVerif.driverLoop NipyVerif.C06.runC
